@@ -931,12 +931,17 @@ def run_scenario(ctx, seed, nreq, fixed_model, stop_at=None, script=None):
                     else:
                         ctx.count("refused-through-write-cap")
                 # ------------- observable for the correspondence: status + resulting tree
-                impl.append("%s %r" % (status_class(st), canon_from_mirror(mir2, nold, mir)))
+                if st is not None and 200 <= st < 400:
+                    body_caps = "n/a"
+                else:
+                    body_caps = ",".join(sorted("%d.%s" % ca for ca in caps_in_body(W, rbody))) or "-"
+                impl.append("%s %r caps=%s" % (status_class(st), canon_from_mirror(mir2, nold, mir), body_caps))
                 lines.append(line)
                 cases.append(dict(case, nold=nold, kind="serve"))
                 mir = mir2
                 if stop_at is not None and idx >= stop_at:
                     break
+            unpack_probe(ctx, rt, c, W, mir, seed, lines, cases, impl)
             for _ in range(3):
                 cache_probe(ctx, rng, c, W, mir, seed, lines, cases, impl)
             # check & repair through a read-only cap of a damaged mutable file must not write (ticket #625)
@@ -999,6 +1004,37 @@ def exec_get(ctx, rt, g, web, W, mir, seed, idx, lines, cases, impl, root, auth,
         lines.append("caps %s %d.%s %s %s" % (grid_token(mir), root, auth, ",".join(str(name_i(s)) for s in path) or "-",
                                               {"readonly-uri": "rouri"}.get(kind, kind)))
         cases.append(dict(case, kind="caps", own="%d.%s" % own if own else None))
+
+
+def unpack_probe(ctx, rt, c, W, mir, seed, lines, cases, impl):
+    """function-level correspondence for the directory read path: the real `_unpack_contents` applied to the stored bytes of every
+    mutable directory, once by a node built from the write cap and once by a node built from the read cap"""
+    for a, (kind, entries, _) in enumerate(mir):
+        if kind != "md":
+            continue
+        rwnode = W.objs[a]["node"]
+        if not rwnode.get_write_uri():
+            continue
+        data = rt.wait(rwnode._node.download_best_version())
+        ronode = c.create_node_from_uri(rwnode.get_readonly_uri())
+        for wflag, node in (("1", rwnode), ("0", ronode)):
+            kids = node._unpack_contents(data)
+            got = []
+            for name, (child, md) in sorted(kids.items(), key=lambda kv: name_i(kv[0]) if name_i(kv[0]) is not None else -1):
+                if child.is_unknown() or name_i(name) is None:
+                    continue
+                ca = W.by_key.get(W.key_of(child))
+                writeable = child.get_write_uri() is not None
+                got.append("%d:%s:%s" % (name_i(name), ca, "w" if writeable else "r"))
+                if wflag == "0" and writeable:
+                    ctx.violation("a read-only view of directory %d unpacked child %s with a write cap" % (a, name),
+                                  {"scenario": seed, "probe": "unpack", "dir": a, "child": name}, "readonly-view-unpacked-writecap")
+            model_order = sorted(got, key=lambda t: int(t.split(":")[0]))
+            lines.append("unpack %s %d %s" % (grid_token(mir), a, wflag))
+            impl.append(",".join(model_order) or "-")
+            cases.append({"scenario": seed, "kind": "unpack", "dir": a, "writeable_view": wflag == "1"})
+            ctx.count("unpack-probes")
+            ctx.case(("unpack", wflag, tuple(t.split(":")[2] for t in model_order)))
 
 
 def cache_probe(ctx, rng, c, W, mir, seed, lines, cases, impl):
@@ -1099,6 +1135,11 @@ def run(ctx):
     outs = ctx.model(all_lines)
     if outs is not None:
         for case, im, out in zip(all_cases, all_impl, outs):
+            if case["kind"] == "unpack":
+                canon = ",".join(sorted(out.split(","), key=lambda t: int(t.split(":")[0]))) if out != "-" else "-"
+                if canon != im:
+                    ctx.disagree("DirectoryNode._unpack_contents: (name, child, write cap or not) per entry for a writeable / read-only view", case, im, canon)
+                continue
             if case["kind"] == "cache":
                 if out != im:
                     ctx.disagree("NodeMaker.create_from_cap history: writeable / read-only node per lookup", case, im, out)
@@ -1112,7 +1153,19 @@ def run(ctx):
             r = case["request"]
             exp = expected_status(out, r["meth"])
             gridtok = out.split(" grid=")[1]
-            want = "%s %r" % (exp, canon_from_model(gridtok, case["nold"]))
+            if " caps=" in out:
+                mc = out.split(" caps=")[1].split(" ")[0]
+                kinds = [o.split("/")[0] for o in case["line"].split(" ")[2].split(";")]
+                norm = set()
+                for x in ([] if mc == "-" else mc.split(",")):
+                    a, au = x.split(".")
+                    if au == "w" and kinds[int(a)] in ("if", "id"):
+                        au = "r"          # the strongest cap of an immutable object is its read cap
+                    norm.add("%s.%s" % (a, au))
+                mcaps = ",".join(sorted(norm)) or "-"
+            else:
+                mcaps = "n/a"
+            want = "%s %r caps=%s" % (exp, canon_from_model(gridtok, case["nold"]), mcaps)
             if want != im:
                 ctx.disagree("web request: status class and resulting directory tree", dict(case, model_out=out.split(" ")[0]), im, want)
     if all_cases:
